@@ -197,19 +197,22 @@ Section Stats.
   Notation event := (event NM).
   Notation pnode := (pnode NM).
 
-  (** *** a callback that never stops on a record and stops with a parse error on an error event *)
+  (** *** a callback that does not stop on a [good] record and stops with a parse error on an error event
+      (for the book every record is good; for the log, since fix F27, the records whose heading is a date) *)
   Section DriveFold.
-    Context {S : Type} (cb : S -> event -> S * bool * option cerr) (step : S -> pnode -> S).
-    Hypothesis cb_node : forall s n, cb s (ENode n) = (step s n, false, None).
+    Context {S : Type} (cb : S -> event -> S * bool * option cerr) (step : S -> pnode -> S) (good : pnode -> Prop).
+    Hypothesis cb_node : forall s n, good n -> cb s (ENode n) = (step s n, false, None).
     Hypothesis cb_err : forall s e, cb s (EErr e) = (s, true, Some (EParse (perr_message e))).
 
     Lemma drive_loop_nodes : forall evs s,
-      no_parse_error NM evs -> drive_loop NM cb evs s = (fold_left step (nodes_of NM evs) s, None).
+      no_parse_error NM evs -> Forall good (nodes_of NM evs) ->
+      drive_loop NM cb evs s = (fold_left step (nodes_of NM evs) s, None).
     Proof.
-      induction evs as [|ev r IH]; intros s H; [reflexivity|].
+      induction evs as [|ev r IH]; intros s H Hg; [reflexivity|].
       assert (Hr : no_parse_error NM r) by (intros e K; apply (H e); right; exact K).
       destruct ev as [n|e].
-      - cbn [drive_loop nodes_of fold_left]. rewrite cb_node. apply IH. exact Hr.
+      - cbn [nodes_of] in Hg. inversion Hg as [|n0 r0 Hn Hgr]; subst n0 r0.
+        cbn [drive_loop nodes_of fold_left]. rewrite (cb_node s n Hn). apply IH; assumption.
       - exfalso. apply (H e). left. reflexivity.
     Qed.
 
@@ -218,51 +221,90 @@ Section Stats.
       induction l1 as [|[n|e] r IH]; intro l2; cbn [app nodes_of]; [reflexivity | rewrite IH; reflexivity | apply IH].
     Qed.
 
-    (** the first parse error stops the walk with that error; the state is the fold over the records before it *)
-    Lemma drive_loop_error : forall pre e post s,
-      no_parse_error NM pre ->
-      drive_loop NM cb (pre ++ EErr e :: post) s
-      = (fold_left step (nodes_of NM pre) s, Some (Some (EParse (perr_message e)))).
+    (** the first event at which the callback stops (after good records only): the walk ends there, with the
+        state and the error the callback returns *)
+    Lemma drive_loop_stops : forall pre ev post s s' e,
+      no_parse_error NM pre -> Forall good (nodes_of NM pre) ->
+      cb (fold_left step (nodes_of NM pre) s) ev = (s', true, e) ->
+      drive_loop NM cb (pre ++ ev :: post) s = (s', Some e).
     Proof.
-      induction pre as [|ev r IH]; intros e post s H.
-      - cbn [app drive_loop nodes_of fold_left]. rewrite cb_err. reflexivity.
+      induction pre as [|ev0 r IH]; intros ev post s s' e H Hg Hcb.
+      - cbn [app drive_loop nodes_of fold_left] in *. rewrite Hcb. reflexivity.
       - assert (Hr : no_parse_error NM r) by (intros e' K; apply (H e'); right; exact K).
-        destruct ev as [n|e'].
-        + cbn [app drive_loop nodes_of fold_left]. rewrite cb_node. apply IH. exact Hr.
+        destruct ev0 as [n|e'].
+        + cbn [nodes_of] in Hg. inversion Hg as [|n0 r0 Hn Hgr]; subst n0 r0.
+          cbn [app drive_loop nodes_of fold_left] in *. rewrite (cb_node s n Hn). apply IH; assumption.
         + exfalso. apply (H e'). left. reflexivity.
     Qed.
 
+    (** the first parse error stops the walk with that error; the state is the fold over the records before it *)
+    Lemma drive_loop_error : forall pre e post s,
+      no_parse_error NM pre -> Forall good (nodes_of NM pre) ->
+      drive_loop NM cb (pre ++ EErr e :: post) s
+      = (fold_left step (nodes_of NM pre) s, Some (Some (EParse (perr_message e)))).
+    Proof. intros pre e post s H Hg. apply drive_loop_stops; [exact H|exact Hg|apply cb_err]. Qed.
+
     Lemma parse_stream_nodes : forall data s,
       snd (scan data NoFault) = ScanEOF -> no_parse_error NM (events NM data) ->
+      Forall good (nodes_of NM (events NM data)) ->
       parse_stream NM cb data NoFault s = (fold_left step (nodes_of NM (events NM data)) s, None).
     Proof.
-      intros data s Hfin Hne. unfold parse_stream, events in *.
+      intros data s Hfin Hne Hg. unfold parse_stream, events in *.
       destruct (scan data NoFault) as [lines fin]. cbn [fst snd] in *. subst fin.
       destruct (parse_lines NM lines) as [evs last].
+      rewrite nodes_of_app in Hg. apply Forall_app in Hg. destruct Hg as [Hg1 Hg2].
       unfold drive. rewrite drive_loop_nodes.
       - rewrite nodes_of_app, fold_left_app. destruct last as [n|].
-        + rewrite cb_node. reflexivity.
+        + cbn [nodes_of] in Hg2. inversion Hg2 as [|n0 r0 Hn _]; subst n0 r0.
+          rewrite (cb_node _ n Hn). reflexivity.
         + cbn [nodes_of fold_left]. reflexivity.
       - intros e K. apply (Hne e). apply in_or_app. left. exact K.
+      - exact Hg1.
     Qed.
 
     Lemma parse_opened_nodes : forall data s,
       snd (scan data NoFault) = ScanEOF -> no_parse_error NM (events NM data) ->
+      Forall good (nodes_of NM (events NM data)) ->
       parse_opened NM cb (OData data NoFault) s = (fold_left step (nodes_of NM (events NM data)) s, None).
     Proof.
-      intros data s Hfin Hne. unfold parse_opened. rewrite parse_stream_nodes by assumption. reflexivity.
+      intros data s Hfin Hne Hg. unfold parse_opened. rewrite parse_stream_nodes by assumption. reflexivity.
     Qed.
 
     (** a parse error in the loop part of the file: the command's error is that parse error *)
     Lemma parse_opened_error : forall data s pre e post last,
       parse_lines NM (fst (scan data NoFault)) = (pre ++ EErr e :: post, last) ->
-      no_parse_error NM pre ->
+      no_parse_error NM pre -> Forall good (nodes_of NM pre) ->
       parse_opened NM cb (OData data NoFault) s
       = (fold_left step (nodes_of NM pre) s, Some (EParse (perr_message e))).
     Proof.
-      intros data s pre e post last Hp Hne. unfold parse_opened, parse_stream.
+      intros data s pre e post last Hp Hne Hg. unfold parse_opened, parse_stream.
       destruct (scan data NoFault) as [lines fin]. cbn [fst] in Hp. rewrite Hp.
-      unfold drive. rewrite drive_loop_error by exact Hne. reflexivity.
+      unfold drive. rewrite drive_loop_error by assumption. reflexivity.
+    Qed.
+
+    (** a record at which the callback stops with an error of its own, in the loop part of the file ... *)
+    Lemma parse_opened_stops_in_loop : forall data s pre n post last s' e,
+      parse_lines NM (fst (scan data NoFault)) = (pre ++ ENode n :: post, last) ->
+      no_parse_error NM pre -> Forall good (nodes_of NM pre) ->
+      cb (fold_left step (nodes_of NM pre) s) (ENode n) = (s', true, Some e) ->
+      parse_opened NM cb (OData data NoFault) s = (s', Some e).
+    Proof.
+      intros data s pre n post last s' e Hp Hne Hg Hcb. unfold parse_opened, parse_stream.
+      destruct (scan data NoFault) as [lines fin]. cbn [fst] in Hp. rewrite Hp.
+      unfold drive. rewrite (drive_loop_stops pre (ENode n) post s s' (Some e) Hne Hg Hcb). reflexivity.
+    Qed.
+
+    (** ... or as the last record of a file that is readable to the end *)
+    Lemma parse_opened_stops_at_last : forall data s evs n s' stop e,
+      snd (scan data NoFault) = ScanEOF ->
+      parse_lines NM (fst (scan data NoFault)) = (evs, Some n) ->
+      no_parse_error NM evs -> Forall good (nodes_of NM evs) ->
+      cb (fold_left step (nodes_of NM evs) s) (ENode n) = (s', stop, Some e) ->
+      parse_opened NM cb (OData data NoFault) s = (s', Some e).
+    Proof.
+      intros data s evs n s' stop e Hfin Hp Hne Hg Hcb. unfold parse_opened, parse_stream.
+      destruct (scan data NoFault) as [lines fin]. cbn [fst snd] in *. subst fin. rewrite Hp.
+      unfold drive. rewrite (drive_loop_nodes evs s Hne Hg), Hcb. reflexivity.
     Qed.
   End DriveFold.
 
@@ -290,19 +332,37 @@ Section Stats.
     intros evs H e K. unfold no_err_b in H. rewrite forallb_forall in H. specialize (H _ K). discriminate.
   Qed.
 
-  (** *** the log callback's fold *)
+  (** ... and for "every heading is a date" *)
+  Definition all_dated_b (toks : list ltoken) (ns : list pnode) : bool :=
+    forallb (fun n => match parse_date toks (header n) with Some _ => true | None => false end) ns.
+
+  Lemma all_dated_b_sound : forall toks ns, all_dated_b toks ns = true -> all_dated NM toks ns.
+  Proof.
+    intros toks ns H. unfold all_dated_b in H. rewrite forallb_forall in H. apply Forall_forall.
+    intros n K. specialize (H _ K). destruct (parse_date toks (header n)); [discriminate|discriminate H].
+  Qed.
+
+  (** *** the log callback's fold (over records whose heading is a date: at any other the callback stops) *)
   Definition stats_step (toks : list ltoken) (st : nat * option time * time) (n : pnode) : nat * option time * time :=
     let '(cnt, first, last) := st in
     match parse_date toks (header n) with
     | Some c => (S cnt, match first with Some _ => first | None => Some (time_of_civil c) end, time_of_civil c)
-    | None => (S cnt, first, zero_time)
+    | None => st
     end.
 
-  Lemma stats_log_cb_node : forall toks st n, stats_log_cb NM toks st (ENode n) = (stats_step toks st n, false, None).
+  Definition dated (toks : list ltoken) (n : pnode) : Prop := parse_date toks (header n) <> None.
+
+  Lemma stats_log_cb_node : forall toks st n, dated toks n ->
+    stats_log_cb NM toks st (ENode n) = (stats_step toks st n, false, None).
   Proof.
-    intros toks [[cnt first] last] n. cbn [stats_log_cb stats_step].
-    destruct (parse_date toks (header n)); reflexivity.
+    intros toks [[cnt first] last] n Hn. unfold dated in Hn. cbn [stats_log_cb stats_step].
+    destruct (parse_date toks (header n)); [reflexivity|contradiction].
   Qed.
+
+  (** fix F27: at a heading that is not a date the callback stops with the date error, the state unchanged *)
+  Lemma stats_log_cb_bad_date : forall toks st n, parse_date toks (header n) = None ->
+    stats_log_cb NM toks st (ENode n) = (st, true, Some EBadDate).
+  Proof. intros toks [[cnt first] last] n Hn. cbn [stats_log_cb]. rewrite Hn. reflexivity. Qed.
 
   (** once a dated heading has been seen, the first record never changes (whatever date it is) *)
   Lemma stats_first_kept : forall toks ns cnt t last,
@@ -323,30 +383,34 @@ Section Stats.
     - apply IH.
   Qed.
 
-  Lemma stats_fold_count : forall toks ns cnt first last,
+  Lemma stats_fold_count : forall toks ns cnt first last, all_dated NM toks ns ->
     fst (fst (fold_left (stats_step toks) ns (cnt, first, last))) = (length ns + cnt)%nat.
   Proof.
-    intros toks ns. induction ns as [|n r IH]; intros cnt first last; [reflexivity|].
-    cbn [fold_left stats_step length]. destruct (parse_date toks (header n)); rewrite IH; lia.
+    intros toks ns. induction ns as [|n r IH]; intros cnt first last Hd; [reflexivity|].
+    inversion Hd as [|n0 r0 Hn Hr]; subst n0 r0.
+    cbn [fold_left stats_step length]. destruct (parse_date toks (header n)); [|contradiction].
+    rewrite IH by exact Hr. lia.
   Qed.
 
-  Lemma stats_fold_last : forall toks ns cnt first last,
+  Lemma stats_fold_last : forall toks ns cnt first last, all_dated NM toks ns ->
     snd (fold_left (stats_step toks) ns (cnt, first, last))
     = match ns with [] => last | _ => stats_last (heading_dates NM toks ns) end.
   Proof.
-    intros toks ns. induction ns as [|n r IH]; intros cnt first last; [reflexivity|].
+    intros toks ns. induction ns as [|n r IH]; intros cnt first last Hd; [reflexivity|].
+    inversion Hd as [|n0 r0 Hn Hr]; subst n0 r0.
     cbn [fold_left stats_step]. unfold stats_last, heading_dates. cbn [map].
-    destruct (parse_date toks (header n)) as [c|]; rewrite IH; destruct r as [|n' r']; reflexivity.
+    destruct (parse_date toks (header n)) as [c|]; [|contradiction].
+    rewrite IH by exact Hr. destruct r as [|n' r']; reflexivity.
   Qed.
 
-  Lemma stats_fold_spec : forall toks ns,
+  Lemma stats_fold_spec : forall toks ns, all_dated NM toks ns ->
     fold_left (stats_step toks) ns (O, None, zero_time)
     = (length ns, stats_first_opt (heading_dates NM toks ns), stats_last (heading_dates NM toks ns)).
   Proof.
-    intros toks ns.
-    pose proof (stats_fold_count toks ns O None zero_time) as H1.
+    intros toks ns Hd.
+    pose proof (stats_fold_count toks ns O None zero_time Hd) as H1.
     pose proof (stats_fold_first toks ns O zero_time) as H2.
-    pose proof (stats_fold_last toks ns O None zero_time) as H3.
+    pose proof (stats_fold_last toks ns O None zero_time Hd) as H3.
     destruct (fold_left (stats_step toks) ns (O, None, zero_time)) as [[c f] l]. cbn [fst snd] in *.
     subst c f l. rewrite Nat.add_0_r. f_equal. destruct ns; reflexivity.
   Qed.
@@ -383,14 +447,24 @@ Section Stats.
     rewrite (H o (or_introl eq_refl)). cbn [stats_first_opt]. apply IH. intros o' K. apply H. right. exact K.
   Qed.
 
-  (** *** stats_spec, on the callback folds *)
+  (** when every heading is a date, no entry of [heading_dates] is [None] *)
+  Lemma all_dated_heading_dates : forall toks ns, all_dated NM toks ns ->
+    Forall (fun o => o <> None) (heading_dates NM toks ns).
+  Proof.
+    intros toks ns H. unfold heading_dates. apply Forall_map. exact H.
+  Qed.
+
+  (** *** stats_spec, on the callback folds.  Since fix F27 the log walk runs to the end only when every
+      heading is a date ([all_dated]; otherwise [run_stats_bad_date] below): then "first" is the date of the
+      first heading, "last" that of the last heading, and the zero time stands for "the log has no record" only *)
   Theorem stats_spec : forall toks data,
     snd (scan data NoFault) = ScanEOF -> no_parse_error NM (events NM data) ->
     let ns := nodes_of NM (events NM data) in
     let ds := heading_dates NM toks ns in
-    (* the log walk: count, first dated heading (if any), last *)
-    parse_opened NM (stats_log_cb NM toks) (OData data NoFault) (O, None, zero_time)
-      = ((length (events NM data), stats_first_opt ds, stats_last ds), None)
+    (* the log walk (every heading a date): count, first heading (if any), last *)
+    (all_dated NM toks ns ->
+     parse_opened NM (stats_log_cb NM toks) (OData data NoFault) (O, None, zero_time)
+       = ((length (events NM data), stats_first_opt ds, stats_last ds), None))
     (* the book walk: count *)
     /\ parse_opened NM (stats_db_cb NM) (OData data NoFault) O = (length (events NM data), None)
     (* every event is a heading record *)
@@ -398,35 +472,39 @@ Section Stats.
     (* first: the FIRST heading that parses as a date, whatever date it is (0001-01-01 included) ... *)
     /\ (forall pre c post, ds = pre ++ Some c :: post -> (forall o, In o pre -> o = None) ->
           stats_first_opt ds = Some (time_of_civil c) /\ stats_first ds = time_of_civil c)
-    (* ... and the zero time is printed when no heading is a date *)
+    (* ... and the zero time is printed when no heading is a date (under [all_dated]: when there is no heading) *)
     /\ ((forall o, In o ds -> o = None) -> stats_first_opt ds = None /\ stats_first ds = zero_time)
     (* the same in one formula *)
     /\ stats_first ds = match find (fun o => match o with Some _ => true | None => false end) ds with
                         | Some (Some c) => time_of_civil c
                         | _ => zero_time
                         end
-    (* last: the date of the last heading; the zero time when it does not parse or there is none *)
-    /\ stats_last ds = match last ds None with Some c => time_of_civil c | None => zero_time end.
+    (* last: the date of the last heading; the zero time when there is none *)
+    /\ stats_last ds = match last ds None with Some c => time_of_civil c | None => zero_time end
+    (* under [all_dated] every entry of [ds] is a date: first = the first heading's, last = the last heading's *)
+    /\ (all_dated NM toks ns -> Forall (fun o => o <> None) ds).
   Proof.
     intros toks data Hfin Hne ns ds.
     split.
-    { rewrite (parse_opened_nodes (stats_log_cb NM toks) (stats_step toks)); try assumption.
-      - fold ns. rewrite stats_fold_spec. fold ds. unfold ns. rewrite nodes_of_length by exact Hne. reflexivity.
+    { intros Hd. rewrite (parse_opened_nodes (stats_log_cb NM toks) (stats_step toks) (dated toks)); try assumption.
+      - fold ns. rewrite stats_fold_spec by exact Hd. fold ds. unfold ns. rewrite nodes_of_length by exact Hne. reflexivity.
       - apply stats_log_cb_node. }
     split.
-    { rewrite (parse_opened_nodes (stats_db_cb NM) (fun c _ => S c)); try assumption.
+    { rewrite (parse_opened_nodes (stats_db_cb NM) (fun c _ => S c) (fun _ => True)); try assumption.
       - rewrite <- (nodes_of_length _ Hne). fold ns. f_equal.
         assert (G : forall (l : list pnode) k, fold_left (fun c (_ : pnode) => S c) l k = (length l + k)%nat).
         { induction l as [|n r IH]; intro k; cbn [fold_left length]; [reflexivity|]. rewrite IH. lia. }
         rewrite G. lia.
-      - intros s n. reflexivity. }
+      - intros s n _. reflexivity.
+      - apply Forall_forall. intros n _. exact I. }
     split; [apply nodes_of_events; exact Hne|].
     split.
     { intros pre c post E Hpre. unfold stats_first. rewrite E, (stats_first_opt_split pre c post Hpre).
       split; reflexivity. }
     split.
     { intro Hall. unfold stats_first. rewrite (stats_first_opt_none ds Hall). split; reflexivity. }
-    split; [apply stats_first_find | reflexivity].
+    split; [apply stats_first_find|]. split; [reflexivity|].
+    intros Hd. apply all_dated_heading_dates. exact Hd.
   Qed.
 
   (** *** [--today] *)
@@ -435,7 +513,8 @@ Section Stats.
     tokenize (op_fmt op) = Some (rc_date (op_rc op))
     /\ match i_f_today i with
        | Some s => exists c, parse_date (rc_date (op_rc op)) s = Some c /\ op_now op = time_of_civil c
-       | None => exists cfg, load_config w i = inr cfg /\ op_now op = or_default (ce_now cfg) (w_clock w)
+       | None => exists cfg, load_config w i = inr cfg
+                             /\ op_now op = time_of_civil (civ (or_default (ce_now cfg) (w_clock w)))
        end.
   Proof.
     intros w i op H. unfold load in H.
@@ -459,7 +538,7 @@ Section Stats.
     = let wr := new_writer w in
       let toks := rc_date (op_rc op) in
       match open_file w (op_log op) with
-      | None | Some ONone => finish wr (Failed EOpen)
+      | None => finish wr (Failed EOpen)
       | Some olog =>
           let '((count_log, first_opt, last), e1) := parse_opened NM (stats_log_cb NM toks) olog (O, None, zero_time) in
           let first := match first_opt with Some t => t | None => zero_time end in
@@ -467,16 +546,12 @@ Section Stats.
           | Some e => finish wr (Failed e)
           | None =>
               let count_db_r : cerr + nat :=
-                match op_db op with
-                | [] => inr O
-                | _ =>
-                    match open_file w (op_db op) with
-                    | None | Some ONone => inl EOpen
-                    | Some odb =>
-                        match parse_opened NM (stats_db_cb NM) odb O with
-                        | (_, Some e) => inl e
-                        | (c, None) => inr c
-                        end
+                match open_file w (op_db op) with
+                | None => inl EOpen
+                | Some odb =>
+                    match parse_opened NM (stats_db_cb NM) odb O with
+                    | (_, Some e) => inl e
+                    | (c, None) => inr c
                     end
                 end in
               match count_db_r with
@@ -490,11 +565,12 @@ Section Stats.
       end.
   Proof. intros w op. reflexivity. Qed.
 
-  (** log and book readable to the end and free of parse errors: what [stats] prints *)
+  (** log and book readable to the end and free of parse errors, every heading of the log a date:
+      what [stats] prints *)
   Theorem run_stats_lines : forall (w : world) (op : options) ldata ddata,
     open_file w (op_log op) = Some (OData ldata NoFault) ->
     snd (scan ldata NoFault) = ScanEOF -> no_parse_error NM (events NM ldata) ->
-    op_db op <> [] ->
+    all_dated NM (rc_date (op_rc op)) (nodes_of NM (events NM ldata)) ->
     open_file w (op_db op) = Some (OData ddata NoFault) ->
     snd (scan ddata NoFault) = ScanEOF -> no_parse_error NM (events NM ddata) ->
     let ds := heading_dates NM (rc_date (op_rc op)) (nodes_of NM (events NM ldata)) in
@@ -505,17 +581,18 @@ Section Stats.
       let '(wr2, e2) := bw_flush wr1 in
       finish wr2 (if e2 then Failed EWrite else Ok).
   Proof.
-    intros w op ldata ddata Hol Hlf Hle Hdb Hod Hdf Hde ds. rewrite run_stats_unfold. cbv zeta.
-    rewrite Hol. destruct (stats_spec (rc_date (op_rc op)) ldata Hlf Hle) as [H1 _]. rewrite H1.
-    destruct (op_db op) as [|c r] eqn:Edb; [contradiction|]. rewrite Hod.
+    intros w op ldata ddata Hol Hlf Hle Hld Hod Hdf Hde ds. rewrite run_stats_unfold. cbv zeta.
+    rewrite Hol. destruct (stats_spec (rc_date (op_rc op)) ldata Hlf Hle) as [H1 _]. rewrite (H1 Hld).
+    rewrite Hod.
     destruct (stats_spec (rc_date (op_rc op)) ddata Hdf Hde) as [_ [H2 _]]. rewrite H2. reflexivity.
   Qed.
 
-  (** with [--no-database] the book count is 0 *)
+  (** with [--no-database] the book is the null device (fix F24): the book count is 0, whatever the world *)
   Theorem run_stats_lines_nodb : forall (w : world) (op : options) ldata,
     open_file w (op_log op) = Some (OData ldata NoFault) ->
     snd (scan ldata NoFault) = ScanEOF -> no_parse_error NM (events NM ldata) ->
-    op_db op = [] ->
+    all_dated NM (rc_date (op_rc op)) (nodes_of NM (events NM ldata)) ->
+    op_db op = dev_null ->
     let ds := heading_dates NM (rc_date (op_rc op)) (nodes_of NM (events NM ldata)) in
     run_stats NM w op
     = let '(wr1, _) := bw_chunks (new_writer w)
@@ -523,26 +600,62 @@ Section Stats.
       let '(wr2, e2) := bw_flush wr1 in
       finish wr2 (if e2 then Failed EWrite else Ok).
   Proof.
-    intros w op ldata Hol Hlf Hle Hdb ds. rewrite run_stats_unfold. cbv zeta.
-    rewrite Hol. destruct (stats_spec (rc_date (op_rc op)) ldata Hlf Hle) as [H1 _]. rewrite H1.
+    intros w op ldata Hol Hlf Hle Hld Hdb ds. rewrite run_stats_unfold. cbv zeta.
+    rewrite Hol. destruct (stats_spec (rc_date (op_rc op)) ldata Hlf Hle) as [H1 _]. rewrite (H1 Hld).
     rewrite Hdb. reflexivity.
   Qed.
 
-  (** a parse error in the log: [stats] prints nothing and fails with that error *)
+  (** a parse error in the log (only dated headings before it): [stats] prints nothing and fails with that error *)
   Theorem run_stats_parse_error : forall (w : world) (op : options) ldata pre e post last,
     open_file w (op_log op) = Some (OData ldata NoFault) ->
     parse_lines NM (fst (scan ldata NoFault)) = (pre ++ EErr e :: post, last) ->
-    no_parse_error NM pre ->
+    no_parse_error NM pre -> all_dated NM (rc_date (op_rc op)) (nodes_of NM pre) ->
     run_stats NM w op = finish (new_writer w) (Failed (EParse (perr_message e))).
   Proof.
-    intros w op ldata pre e post last Hol Hp Hne. rewrite run_stats_unfold. cbv zeta. rewrite Hol.
+    intros w op ldata pre e post last Hol Hp Hne Hd. rewrite run_stats_unfold. cbv zeta. rewrite Hol.
     rewrite (parse_opened_error (stats_log_cb NM (rc_date (op_rc op))) (stats_step (rc_date (op_rc op)))
-               (stats_log_cb_node _) (fun s e => eq_refl) ldata _ pre e post last Hp Hne).
+               (dated (rc_date (op_rc op)))
+               (stats_log_cb_node _) (fun s e => eq_refl) ldata _ pre e post last Hp Hne Hd).
+    destruct (fold_left _ _ _) as [[c f] l]. reflexivity.
+  Qed.
+
+  (** fix F27: a heading that is not a date (no parse error and only dated headings before it): [stats] prints
+      nothing and fails with the date error, like every other command.  (Before the fix the heading was
+      counted and, as last heading, shown as the zero time.)  The heading among the records completed
+      inside the file ... *)
+  Theorem run_stats_bad_date : forall (w : world) (op : options) ldata pre n post last,
+    open_file w (op_log op) = Some (OData ldata NoFault) ->
+    parse_lines NM (fst (scan ldata NoFault)) = (pre ++ ENode n :: post, last) ->
+    no_parse_error NM pre -> all_dated NM (rc_date (op_rc op)) (nodes_of NM pre) ->
+    parse_date (rc_date (op_rc op)) (header n) = None ->
+    run_stats NM w op = finish (new_writer w) (Failed EBadDate).
+  Proof.
+    intros w op ldata pre n post last Hol Hp Hne Hd Hbad. rewrite run_stats_unfold. cbv zeta. rewrite Hol.
+    rewrite (parse_opened_stops_in_loop (stats_log_cb NM (rc_date (op_rc op))) (stats_step (rc_date (op_rc op)))
+               (dated (rc_date (op_rc op))) (stats_log_cb_node _) ldata _ pre n post last _ EBadDate Hp Hne Hd
+               (stats_log_cb_bad_date _ _ n Hbad)).
+    destruct (fold_left _ _ _) as [[c f] l]. reflexivity.
+  Qed.
+
+  (** ... or the last record of a file that is readable to the end *)
+  Theorem run_stats_bad_date_last : forall (w : world) (op : options) ldata evs n,
+    open_file w (op_log op) = Some (OData ldata NoFault) ->
+    snd (scan ldata NoFault) = ScanEOF ->
+    parse_lines NM (fst (scan ldata NoFault)) = (evs, Some n) ->
+    no_parse_error NM evs -> all_dated NM (rc_date (op_rc op)) (nodes_of NM evs) ->
+    parse_date (rc_date (op_rc op)) (header n) = None ->
+    run_stats NM w op = finish (new_writer w) (Failed EBadDate).
+  Proof.
+    intros w op ldata evs n Hol Hfin Hp Hne Hd Hbad. rewrite run_stats_unfold. cbv zeta. rewrite Hol.
+    rewrite (parse_opened_stops_at_last (stats_log_cb NM (rc_date (op_rc op))) (stats_step (rc_date (op_rc op)))
+               (dated (rc_date (op_rc op))) (stats_log_cb_node _) ldata _ evs n _ true EBadDate Hfin Hp Hne Hd
+               (stats_log_cb_bad_date _ _ n Hbad)).
     destruct (fold_left _ _ _) as [[c f] l]. reflexivity.
   Qed.
 End Stats.
 
-(** *** non-vacuity: a log whose first heading is 0001/01/01 and whose last heading is not a date *)
+(** *** non-vacuity: a log whose first heading is 0001/01/01 and whose last heading is not a date: the walk stops
+    there with the date error (fix F27; before: 4 records, last record = zero time, no error) *)
 Definition ex_nl : bytes := [c_lf].
 Definition ex_log : bytes :=
   b "0001/01/01" ++ ex_nl ++ b "  bread 2" ++ ex_nl ++
@@ -559,7 +672,7 @@ Proof. apply no_err_b_sound. vm_compute. reflexivity. Qed.
 
 Example ex_stats_fold :
   parse_opened ZNum (stats_log_cb ZNum ex_toks) (OData ex_log NoFault) (O, None, zero_time)
-  = ((4%nat, Some (time_of_civil (1, 1, 1)%Z), zero_time), None)
+  = ((3%nat, Some (time_of_civil (1, 1, 1)%Z), time_of_civil (2021, 1, 5)%Z), Some EBadDate)
   /\ heading_dates ZNum ex_toks (nodes_of ZNum (events ZNum ex_log))
      = [Some (1, 1, 1)%Z; Some (2021, 1, 2)%Z; Some (2021, 1, 5)%Z; None]
   /\ days_between (time_of_civil (2021, 1, 10)%Z) (time_of_civil (2021, 1, 2)%Z) = 8%Z
@@ -603,7 +716,7 @@ Example stats_first_record_zero_date :
   (* and the whole program, [stats --no-database --today 0001/01/10] *)
   /\ run ZNum z_world z_inv
      = {| out_stdout :=
-            b "  Database file:      " ++ ex_nl ++
+            b "  Database file:      /dev/null" ++ ex_nl ++
             b "  Database records:   0" ++ ex_nl ++
             ex_nl ++
             b "  Log file:           log.yaml" ++ ex_nl ++
@@ -630,3 +743,19 @@ Example stats_days_far_ends :
   /\ (let now := {| inst := (18629 * 86400 + 46801) * ns_per_sec; off := 7200; civ := (2021, 1, 2) |} in
       days_between now (time_of_civil (2021, 1, 1)) = 1 /\ days_between now (time_of_civil (2021, 1, 5)) = -2)%Z.
 Proof. vm_compute. repeat split; reflexivity. Qed.
+
+(** repair 3 (fix F27: a heading that is not a date is an error for [stats] too).  [ex_log] has three dated
+    headings and then the heading "notadate": [stats] prints nothing and fails with the date error
+    (instance of [run_stats_bad_date_last]: the heading is the last record of the file).
+    OLD behaviour: "Log records: 4" and "Last record: 0001/01/01", status Ok. *)
+Definition bad_world : world :=
+  {| w_fs := [(b "log.yaml", FFile ex_log)];
+     w_default_config := b "/root/.hranoprovod/config"; w_tz := 0%Z; w_clock := time_of_civil (2021, 1, 10)%Z;
+     w_or := {| o_resolve := fun l => l; o_day := fun _ l => l; o_flush := fun l => l |};
+     w_sink := None; w_read_fault := [] |}.
+
+Example stats_bad_date_fails :
+  run ZNum bad_world z_inv = {| out_stdout := []; out_status := Failed EBadDate |}
+  /\ exists evs n, parse_lines ZNum (fst (scan ex_log NoFault)) = (evs, Some n)
+                   /\ all_dated_b ZNum ex_toks (nodes_of ZNum evs) = true /\ parse_date ex_toks (header n) = None.
+Proof. split; [vm_compute; reflexivity|]. eexists. eexists. vm_compute. repeat split; reflexivity. Qed.
